@@ -1,7 +1,7 @@
 // C17 correspondence harness: the invalid (and valid) generators of C05 through GEOSMakeValidWithParams, both methods,
 // keepCollapsed off / on.  One case line per (geometry, configuration):
 //   M | <input tokens> | <output tokens or NULL> | method=L|S keep=0|1 ov=<isValid(out)> idem=<1|0|E|->
-// idem: fix(fix g) equalsExact fix g after normalisation (computed here with GEOS).
+// idem: fix(fix g) equalsExact fix g after normalisation (computed here with GEOS); W = equal up to wrapping a single element in a Multi*.
 //   c17 makevalid <seed> <n> <outbase>
 //   c17 replay <file>    lines "M | <input tokens> | ... | method=.. keep=.." (re-run) or "W <method> <keep> <wkt>"
 #include "validgen.h"
@@ -34,7 +34,10 @@ static std::string runDirect(GEOSContextHandle_t h, const Geometry* g, const std
         GEOSGeometry* o2 = mv(h, o, method, keep);
         if (!o2) idem = "E";
         else { GEOSGeometry* a = GEOSGeom_clone_r(h, o); GEOSGeometry* b = GEOSGeom_clone_r(h, o2); GEOSNormalize_r(h, a); GEOSNormalize_r(h, b);
-            char e = GEOSEqualsExact_r(h, a, b, 0.0); idem = e == 1 ? "1" : e == 0 ? "0" : "E"; GEOSGeom_destroy_r(h, a); GEOSGeom_destroy_r(h, b); GEOSGeom_destroy_r(h, o2); }
+            char e = GEOSEqualsExact_r(h, a, b, 0.0); idem = e == 1 ? "1" : e == 0 ? "0" : "E";
+            if (e == 0) {   // does the second pass only unwrap / wrap a one-element Multi*?
+                const GEOSGeometry* a1 = GEOSGetNumGeometries_r(h, a) == 1 ? GEOSGetGeometryN_r(h, a, 0) : nullptr; const GEOSGeometry* b1 = GEOSGetNumGeometries_r(h, b) == 1 ? GEOSGetGeometryN_r(h, b, 0) : nullptr;
+                if ((a1 && GEOSEqualsExact_r(h, a1, b, 0.0) == 1) || (b1 && GEOSEqualsExact_r(h, a, b1, 0.0) == 1) || (a1 && b1 && GEOSEqualsExact_r(h, a1, b1, 0.0) == 1)) idem = "W"; } GEOSGeom_destroy_r(h, a); GEOSGeom_destroy_r(h, b); GEOSGeom_destroy_r(h, o2); }
         if (out) out->count(std::string("outtype_") + ((Geometry*) o)->getGeometryType());
         GEOSGeom_destroy_r(h, o);
     } else if (out) out->count("out_null");
